@@ -28,6 +28,11 @@ def main():
     try:
         import_pregex()
         mod = importlib.import_module(f'pbt.props.{prop.lower()}')
+        if int(shard_index) % 3 == 1 and not getattr(mod, 'NO_PRELUDE', False):
+            from pbt.common import failed_calls_prelude
+            ctx.prelude = True
+            ctx.count('history:shard_ran_after_failed_calls_prelude')
+            ctx.count('history:prelude_calls', failed_calls_prelude())
         mod.run_shard(spec, ctx)
     except HarnessError as e:
         status = {'ok': False, 'error': f'HarnessError: {e}', 'trace': traceback.format_exc()}
